@@ -82,7 +82,16 @@ def run(ctx):
     else:
         ctx.exhaustive.append('every code point at 4 positions of a version string')
     pos = [c + '1' for c in cps] + ['1' + c + '1' for c in cps] + ['1:' + c for c in cps] + ['1-' + c for c in cps]
-    allc = small + acc + rej + ws + pos
+    # strings that look like syntax of something else (format fields, % formats, regex / shell metacharacters):
+    # they must be rejected with ValueError like any other invalid string, or accepted when they are policy-valid
+    look = ['{}', '{0}', '{1}', '{a}', '{0.real}', '{!r}', '{:d}', '{{}}', '{0[0]}', '%s', '%d', '%(a)s', '%%', '%', '\\d', '\\', '\\1', '$', '^1',
+            '1|2', '(1)', '[1]', '1*', '1?', '1;2', '`1`', '$(1)', '${1}', "1'", '1"', '1#2', '1&2', '1 2', '1\x002', 'None', 'nan', '1e5', '0x10', '1_0', '+1', '-1']
+    syn = list(look)
+    for v in acc[:ctx.n(200, 2000)]:
+        t = rng.choice(look)
+        k = rng.randint(0, len(v))
+        syn += [v + t, t + v, v[:k] + t + v[k:], t + ':' + v, v + '-' + t]
+    allc = small + acc + rej + ws + pos + syn
     bad = ctx.compare('corr:from_string', [('from_string', [s]) for s in allc], impl)
     # the compiled pattern object itself ($ also matches before one final newline)
     pat = small + acc[:2000] + rej
